@@ -15,7 +15,7 @@ EXHAUSTIVE = {'quick': True, 'thorough': True}
 RULE = ('(a) exhaustive enumeration of all strings up to length 5 (quick) / 6 (thorough) over the alphabet {every active '
         'delimiter, the escape character, the letters H N F S T R E L, one letter, one digit, blank} for the default '
         'delimiter sets of <2.7 (16 symbols) and >=2.7 (17 symbols, with truncation); (b) Hypothesis text up to length 60 '
-        'over the same kind of alphabet for drawn delimiter sets x every textual datatype class of every version; (c) the '
+        '(one in ten up to length 400) over the same kind of alphabet for drawn delimiter sets x every textual datatype class of every version; (c) the '
         'same values assigned through a datatype object inside a generated message (separator counts must not change) and '
         'read back through the parser; (d) coverage-guided campaigns (atheris) over (textual class of any version, one of four '
         'delimiter sets, arbitrary printable Unicode text up to 80 characters). Oracle: an independent left-to-right tokenizer must split enc(x) into ordinary '
@@ -241,8 +241,13 @@ def sampled_cases(draw, cells):
         [esc + o + esc for o in others] + ['X', '.', 'b', 'r', '0', 'D']
     if draw(st.integers(0, 3)) == 0:
         atoms = [a for a in atoms if esc not in a]        # escape-free text: the cases that may carry highlight ranges
-    parts = draw(st.lists(st.sampled_from(atoms), min_size=1, max_size=20))
-    x = ''.join(parts)[:60]
+    if draw(st.integers(0, 9)) == 0:
+        # a long value: dozens of escape characters, sequences and delimiters in one leaf
+        parts = draw(st.lists(st.sampled_from(atoms), min_size=40, max_size=90))
+        x = ''.join(parts)[:400]
+    else:
+        parts = draw(st.lists(st.sampled_from(atoms), min_size=1, max_size=20))
+        x = ''.join(parts)[:60]
     hl = None
     if len(x) >= 4 and esc not in x and draw(st.integers(0, 2)) == 0:      # ranges index the raw text: kept off existing sequences
         a = draw(st.integers(0, len(x) - 3))
